@@ -1,6 +1,9 @@
 package c17
 
-import "strings"
+import (
+	"os"
+	"strings"
+)
 
 // apiKey values for custom-auth. The documentation requires a non-empty string; everything below is
 // non-empty. "edge" keys are whitespace-only or carry leading/trailing whitespace: a factory may
@@ -17,6 +20,8 @@ var unusualKeys = []string{
 	"al pha", "a b  c", // interior spaces
 	longKey,                    // very long
 	"ключ-🔑", "ａｌｐｈａ", "clé-ß", // non-ASCII
+	// characters that mean something to a shell, a template engine, a format string or a pattern: a key is none of these
+	"pa$$w0rd", "Zx$9kQ-7f", "tok_$abc_42", "$HOME", "${PATH}", "k-${UNSET_VAR_XYZ}-k", "100%s", "%41lpha", "{{key}}", "a*b?c[d]", "^key$", "key#frag", "\"quoted\"", "a&b|c;d", "back\\slash", "`id`",
 }
 
 // edgeKey: TrimSpace would change it (whitespace-only or leading/trailing whitespace).
@@ -43,6 +48,8 @@ func keyClass(k string) string {
 		return "key=very-long"
 	case strings.ContainsAny(k, " \t"):
 		return "key=interior-space"
+	case strings.ContainsAny(k, "$%{}*?[]^#\"&|;\\`"):
+		return "key=special-characters"
 	}
 	return "key=non-ascii"
 }
@@ -51,7 +58,7 @@ func keyClass(k string) string {
 // (trimming, case-folding, prefix-matching) comparison would wrongly accept.
 func differentKeys(k string) []string {
 	cands := []string{strings.TrimSpace(k), k + " ", " " + k, strings.ToUpper(k), strings.ReplaceAll(k, " ", ""),
-		k[:len(k)-1], k + k[len(k)-1:], "alpha", "wrong", " "}
+		k[:len(k)-1], k + k[len(k)-1:], "alpha", "wrong", " ", os.ExpandEnv(k), os.Expand(k, func(string) string { return "" })}
 	var out []string
 	seen := map[string]bool{k: true, "": true}
 	for _, c := range cands {
